@@ -390,3 +390,53 @@ Proof.
   destruct (flip_sound _ _ _ _ _ H) as (cs & Hcs & ->).
   destruct (flip_binary r cs (proj1 Hb)) as (H1 & H2). split; auto. lia.
 Qed.
+
+(* ---------------- a whole run: every individual of every generation is a binary row of length n and
+   every generation has pop_size rows.  A generation = pop_size children, each produced by new_individ
+   (selection -> crossover -> mutation over the CURRENT population) and, with elitism, the last slot
+   overwritten by the best-so-far, which is a member of an earlier population. *)
+Definition row_ok (n : nat) (x : row) : Prop := binary x /\ length x = n.
+
+Inductive ga_step (n pop_size : nat) : list row -> list row -> Prop :=
+| ga_step_plain pop children :
+    length children = pop_size -> Forall (row_ok n) children -> ga_step n pop_size pop children
+| ga_step_elite pop children best :
+    length children = pop_size -> Forall (row_ok n) children -> row_ok n best ->
+    ga_step n pop_size pop (removelast children ++ [best]).
+
+Inductive ga_run (n pop_size : nat) : list row -> list row -> Prop :=
+| ga_run_nil pop : ga_run n pop_size pop pop
+| ga_run_cons pop pop1 pop2 : ga_step n pop_size pop pop1 -> ga_run n pop_size pop1 pop2 -> ga_run n pop_size pop pop2.
+
+Lemma Forall_removelast' {A} (P : A -> Prop) (xs : list A) : Forall P xs -> Forall P (removelast xs).
+Proof.
+  induction xs as [|x xs IH]; intros H; simpl; auto. destruct xs; [constructor|].
+  inversion H; subst. constructor; auto.
+Qed.
+
+Lemma removelast_length' {A} (xs : list A) : xs <> [] -> length (removelast xs) = (length xs - 1)%nat.
+Proof.
+  induction xs as [|x xs IH]; intros H; [congruence|]. destruct xs as [|y xs]; [reflexivity|].
+  cbn [removelast length] in *. rewrite IH by congruence. simpl. lia.
+Qed.
+
+Theorem ga_run_shape n pop_size pop pop' : (0 < pop_size)%nat ->
+  ga_run n pop_size pop pop' -> Forall (row_ok n) pop -> length pop = pop_size ->
+  Forall (row_ok n) pop' /\ length pop' = pop_size.
+Proof.
+  intros Hp H. induction H as [|pop pop1 pop2 Hs Hr IH]; intros Hok Hl; [auto|]. apply IH.
+  - destruct Hs as [pop children Hlc Hc|pop children best Hlc Hc Hb]; auto.
+    apply Forall_app. split; [apply Forall_removelast'; auto|constructor; auto].
+  - destruct Hs as [pop children Hlc Hc|pop children best Hlc Hc Hb]; auto.
+    rewrite app_length, removelast_length' by (destruct children; simpl in *; [lia|congruence]). simpl. lia.
+Qed.
+
+(* each child of a generation satisfies row_ok: this is new_individ_shape restated with row_ok/pop_ok *)
+Corollary new_individ_row_ok selection tour quantity crossover proba is_const pop fscale frank n ds child ds' :
+  Forall (row_ok n) pop -> (0 < quantity)%nat ->
+  (forall ds r ds', selection fscale frank tour quantity ds = Some (r, ds') ->
+      length r = quantity /\ Forall (fun v => (0 <= v < Z.of_nat (length pop))%Z) r) ->
+  (forall ps f r ds c ds', crossover ps f r ds = Some (c, ds') -> from_parents ps c) ->
+  new_individ selection tour quantity crossover proba is_const pop fscale frank ds = Some (child, ds') ->
+  row_ok n child.
+Proof. intros. unfold row_ok. eapply new_individ_shape; eauto. Qed.
